@@ -692,7 +692,60 @@ class C17(core.PropertyCheck):
                     break
             finally:
                 cleanup(T)
-        return viol, {"tree_changes_during_scan": {"scenarios": ran, "directories_swapped": swapped, "paths_yielded_after_the_swap": yielded_after,
+        # ---- the tree changes BETWEEN two scans of one process (language server, watch mode, test suites): what a scan reports is a
+        # function of the tree as it is now, not of what an earlier scan of the same paths saw
+        rescans = 0
+        if not viol:
+            for k in range(30 if tier == "quick" else 300):
+                T = os.path.realpath(tempfile.mkdtemp(prefix="snooty-verif-c17rescan-", dir=TMPBASE))
+                try:
+                    root = os.path.join(T, "proj")
+                    dirs = ["a", "b", "a/deep", "c"]
+                    for d in dirs:
+                        os.makedirs(os.path.join(root, d), exist_ok=True)
+                        open(os.path.join(root, d, "p.txt"), "w").write("x\n")
+                    open(os.path.join(root, "index.txt"), "w").write("x\n")
+
+                    def state():
+                        return {d for d in dirs if os.path.exists(os.path.join(root, d, "snooty.toml"))}
+
+                    def expected(nested):
+                        out = {"index.txt"}
+                        for d in dirs:
+                            if not any(d == nd or d.startswith(nd + "/") for nd in nested):
+                                out.add(d + "/p.txt")
+                        return out
+
+                    for d in dirs:
+                        if rng.random() < 0.4:
+                            open(os.path.join(root, d, "snooty.toml"), "w").write('name = "n"\n')
+                    for step in range(3):
+                        diags = {}
+                        got = {os.path.relpath(str(p), root) for p in util.get_files(Path(root), (".txt",), Path(root) if rng.random() < 0.5 else None, diags)}
+                        rescans += 1
+                        nested = state()
+                        top = {nd for nd in nested if not any(nd.startswith(o + "/") for o in nested if o != nd)}
+                        reported = {os.path.dirname(str(k)) for k in diags}
+                        if got != expected(nested) or reported != top:
+                            viol.append({"case": {"kind": "rescan", "step": step, "nested": sorted(nested), "got": sorted(got), "reported": sorted(reported)},
+                                         "desc": (f"rescan: scan number {step + 1} of one tree in one process, nested projects now {sorted(nested)}: yielded {sorted(got)} "
+                                                  f"(expected {sorted(expected(nested))}), NestedProject reported for {sorted(reported)} (expected {sorted(top)})"),
+                                         "key": "rescan"})
+                            break
+                        # toggle some markers before the next scan
+                        for d in dirs:
+                            if rng.random() < 0.4:
+                                f = os.path.join(root, d, "snooty.toml")
+                                if os.path.exists(f):
+                                    os.unlink(f)
+                                else:
+                                    open(f, "w").write('name = "n"\n')
+                    if viol:
+                        break
+                finally:
+                    cleanup(T)
+        return viol, {"tree_changes_between_scans": {"scans": rescans, "what": "nested-project markers added / removed between scans of the same paths in one process"},
+                      "tree_changes_during_scan": {"scenarios": ran, "directories_swapped": swapped, "paths_yielded_after_the_swap": yielded_after,
                                                      "what": "queued real sub-directories replaced by links to outside mirrors after the first yield; every later path must resolve inside the root"}}
 
     # ---- evidence -----------------------------------------------------------------------
